@@ -94,10 +94,12 @@ class SegWorld(World):
         if target == 'unseg' or self.nseg == 0:
             name = self.obj_name
             return bytes(enc.make_data(name, enc.MetaInfo(freshness_period=1000), seg_content(sc, 0), signer=DigestSha256Signer()))
-        if target >= self.nseg:
+        if target >= self.nseg + sc.get('stored_beyond', 0):
             return None
         final = seg_comp(self.nseg - 1)
         put_final = sc['final_on'] == 'all' or target == self.nseg - 1
+        if sc.get('stored_beyond') and target >= self.nseg - 1:
+            pass        # the producer holds more segments than the designated final one; the fetch must stop at the final
         mi = enc.MetaInfo(freshness_period=1000, final_block_id=final if put_final else None)
         return bytes(enc.make_data(self.obj_name + [seg_comp(target)], mi, seg_content(sc, target), signer=DigestSha256Signer()))
 
@@ -270,7 +272,7 @@ class SegWorld(World):
 
 
 def generate(rng, seed, tier='quick'):
-    nseg = rng.choice([0, 1, 1, 2, 3, 4, 5, 8, 12])
+    nseg = rng.choice([0, 1, 1, 2, 3, 4, 5, 8, 12] + ([257, 258] if rng.random() < 0.03 else []))
     R = rng.randint(1, 4)
     life = rng.choice([10, 20, 50, 200])
     if nseg == 0:
@@ -310,6 +312,7 @@ def generate(rng, seed, tier='quick'):
             'nseg': nseg, 'sizes': [rng.choice([0, 1, 3, 10, 300]) for _ in range(max(nseg, 1))],
             'final_on': rng.choice(['last', 'all']), 'discovery': discovery, 'loss': loss, 'invalid': invalid,
             'retry_times': R, 'lifetime': life, 'mbf': rng.random() < 0.7,
+            'stored_beyond': rng.choice([0, 0, 0, 1, 3]) if nseg else 0,
             'ops': [{'seg': k} for k in keys]}
 
 
